@@ -234,7 +234,7 @@ func VerifC12_KLayout() {
 	// one whitespace byte left to the solver: any of the six ASCII space characters
 	ws := vndByte("ws")
 	vAssume(vOr(vOr(ws == ' ', ws == '\t'), vOr(vOr(ws == '\n', ws == '\r'), vOr(ws == '\f', ws == '\v'))))
-	gaps := []string{" ", "\n", string([]byte{ws}), " ;c\n", "\r\n", ""}
+	gaps := []string{" ", "\n", string([]byte{ws}), " ;c\n", "\r\n", "", ";c\n"} // the last: a comment glued to the token before it
 	var sb, ref strings.Builder
 	for i, t := range toks {
 		if i > 0 {
@@ -251,6 +251,10 @@ func VerifC12_KLayout() {
 			if toks[i-1] == "'" {
 				vAssume(gaps[g] == "" || gaps[g] == " ")
 			}
+			if gaps[g] == ";c\n" {
+				// the glued comment is tried where gluing can matter: after a dash run
+				vAssume(strings.HasPrefix(toks[i-1], "-"))
+			}
 			sb.WriteString(gaps[g])
 			if toks[i-1] != "'" {
 				ref.WriteString(" ")
@@ -265,5 +269,9 @@ func VerifC12_KLayout() {
 	vObserve("src", sb.String())
 	vAssert(ok, "re-laid-out source is accepted")
 	vAssert(treesEq(got, want), "the tree does not depend on layout")
+	gotF, okF := parseFormatting(sb.String())
+	gotT, okT := parseTolerant(sb.String())
+	vAssert(okF && okT, "the format-preserving and the fault-tolerant readers accept it too")
+	vAssert(treesEq(gotF, want) && treesEq(gotT, want), "and read the same tree in every layout")
 	vCover("end")
 }
